@@ -27,6 +27,8 @@
      returned here as (mu, sig^2, skew*sig^3).
 
    base.py:67-72  __hdi_cost                                             hdi_cost_q
+   base.py:28-66  interval(fraction): the result is judged from the
+     values the real cost reads at the returned (c, w) and around it     check_interval
 *)
 From Coq Require Import List ZArith QArith Qabs Bool.
 Import ListNotations.
@@ -154,6 +156,33 @@ Definition check_sample_moments (l : list Q) (obs : Q * Q * Q) (rtol : Q) : nat 
   (b 0 (within (omu * omu - 2 * omu * mu + mu * mu) 0 (rtol * rtol * sig2)) +   (* |mu - mu*| <= rtol sd *)
    b 1 (within (osig * osig) sig2 (rtol * sig2)) +
    b 2 (within (oskew * sig3) m3 (rtol * 1000 * sig3 + rtol * Qabs m3)))%nat.
+
+(* ---- judgement of an interval returned by base.py:28-66 interval(fraction) ----
+   Observed on the real estimator at the returned (c, w):
+     wt = 0.2 / pdf(mode); Pa Pb Fa Fb = the end densities / cumulative values the real
+     __hdi_cost read there; cost = the value it returned; probes = the real cost at
+     neighbouring (c', w') (wider / narrower / shifted intervals).
+   bit 0: the enclosed probability differs from f by more than tol_loose;
+   bit 1: it differs by more than tol_tight AND some neighbouring interval has less than
+          half the cost, i.e. the search stopped (or was confined) short of a better
+          interval that lies next to the returned one;
+   bit 2: weighted end-density mismatch above tol_ends;
+   bit 3: the returned cost is not the model's cost of the observed end values. *)
+Definition qlt_bool (a b : Q) : bool := negb (Qle_bool b a).
+
+Definition better_probe (exact : Q) (probes : list Q) : bool :=
+  existsb (fun q => qlt_bool (2 * q) exact) probes.
+
+Definition bit (k : nat) (ok : bool) : nat := if ok then 0%nat else Nat.pow 2 k.
+
+Definition check_interval (wt Pa Pb Fa Fb f cost : Q) (probes : list Q)
+                          (tol_tight tol_loose tol_ends rtol atol : Q) : nat :=
+  let m := Fb - Fa in
+  let exact := hdi_cost_q wt Pa Pb Fa Fb f in
+  (bit 0 (within m f tol_loose) +
+   bit 1 (within m f tol_tight || negb (better_probe exact probes)) +
+   bit 2 (within (wt * (Pa - Pb)) 0 tol_ends) +
+   bit 3 (within cost exact (rtol * exact + atol)))%nat.
 
 Fixpoint failing_codes {A} (chk : A -> nat) (l : list A) (i : nat) : list nat :=
   match l with
